@@ -160,7 +160,9 @@ func (p *Proxy) init() {
 			} else {
 				t.Proxy = p.ProxyURL
 			}
-			t.OnProxyConnectResponse = OnProxyConnectResponse
+			t.OnProxyConnectResponse = func(ctx context.Context, u *url.URL, req *http.Request, res *http.Response) error {
+				return onProxyConnectResponse(ctx, u, req, res, p.ConnectTimeout)
+			}
 
 			p.rt = t
 		}
